@@ -42,6 +42,31 @@ struct Frame {
     std::optional<protocol::Message> message;   // decode_signed under the current session key
 };
 
+// Stops a node's transport and destroys it only once every session reader thread has finished.  SessionManager::stop()
+// itself waits two seconds per session and then goes on; on a loaded machine a reader thread can still be inside its last
+// handler at that point, and destroying the Node under it is object life-time at teardown, not what any harness is about
+// (the daemon exits instead).  If a reader is still alive after a minute the Node is leaked rather than destroyed.
+inline void stop_and_destroy(std::unique_ptr<Node>& node) {
+    if (!node) return;
+    std::vector<std::shared_ptr<network::SessionManager::Session>> readers;
+    {
+        std::scoped_lock lock(node->sessions_.sessions_mutex_);
+        for (auto& [k, sp] : node->sessions_.sessions_) { (void)k; if (sp) readers.push_back(sp); }
+    }
+    node->stop_transport();
+    timespec t0{};
+    clock_gettime(CLOCK_MONOTONIC, &t0);
+    for (auto& sp : readers) {
+        while (sp->alive.load()) {
+            timespec t1{};
+            clock_gettime(CLOCK_MONOTONIC, &t1);
+            if (t1.tv_sec - t0.tv_sec > 60) { (void)node.release(); return; }
+            ::usleep(2000);
+        }
+    }
+    node.reset();
+}
+
 class NodeFx {
 public:
     std::unique_ptr<Node> node;
